@@ -3,21 +3,21 @@
    from every initial state of the token file.                                           *)
 EXTENDS Integers, Sequences, FiniteSets, TLC, Json
 CONSTANTS NStarts
-VARIABLES disk, mem, pc, enabled, fresh, starts, seen, hist, init
+VARIABLES disk, mem, pc, enabled, fresh, starts, seen, hist, init, inittmp
 I == INSTANCE Identity WITH Items <- {"ssh", "ftp", "smtp", "ldap", "agent"}, Deviations <- {}, MaxStarts <- NStarts
 
 RECURSIVE SetToSeqS(_)
 SetToSeqS(S) == IF S = {} THEN <<>> ELSE LET x == CHOOSE x \in S : TRUE IN <<x>> \o SetToSeqS(S \ {x})
 Sets == { {"ssh"}, {"ftp", "smtp"}, {"ssh", "ftp", "smtp", "ldap", "agent"}, {"ldap", "agent"}, {"ssh", "ldap"} }
-Init == I!Init /\ hist = <<>> /\ init = disk.token[1]
-Begin == \E en \in Sets : I!Start(en) /\ hist' = Append(hist, [enabled |-> en, completed |-> FALSE]) /\ UNCHANGED init
-Work == (I!TokenStep \/ \E i \in {"ssh", "ftp", "smtp", "ldap", "agent"} : I!ItemStep(i)) /\ UNCHANGED <<hist, init>>
-Complete == I!Up /\ hist' = [hist EXCEPT ![Len(hist)].completed = TRUE] /\ UNCHANGED init
-Stop == I!Kill /\ UNCHANGED <<hist, init>>
+Init == I!Init /\ hist = <<>> /\ init = disk.token[1] /\ inittmp = disk.tmp[1]
+Begin == \E en \in Sets : I!Start(en) /\ hist' = Append(hist, [enabled |-> en, completed |-> FALSE]) /\ UNCHANGED <<init, inittmp>>
+Work == (I!TokenStep \/ I!TokenTmp \/ I!TokenRename \/ \E i \in {"ssh", "ftp", "smtp", "ldap", "agent"} : I!ItemStep(i)) /\ UNCHANGED <<hist, init, inittmp>>
+Complete == I!Up /\ hist' = [hist EXCEPT ![Len(hist)].completed = TRUE] /\ UNCHANGED <<init, inittmp>>
+Stop == I!Kill /\ UNCHANGED <<hist, init, inittmp>>
 Emit == /\ pc = "down" /\ starts = NStarts /\ Len(hist) = NStarts
-        /\ PrintT(<<"SCN", ToJson([token |-> init, starts |-> [k \in 1..Len(hist) |-> [enabled |-> SetToSeqS(hist[k].enabled), completed |-> hist[k].completed]]])>>)
-        /\ UNCHANGED <<disk, mem, pc, enabled, fresh, starts, seen, hist, init>>
+        /\ PrintT(<<"SCN", ToJson([token |-> init, tmp |-> inittmp, starts |-> [k \in 1..Len(hist) |-> [enabled |-> SetToSeqS(hist[k].enabled), completed |-> hist[k].completed]]])>>)
+        /\ UNCHANGED <<disk, mem, pc, enabled, fresh, starts, seen, hist, init, inittmp>>
 Next == Begin \/ Work \/ Complete \/ Stop \/ Emit
-Spec == Init /\ [][Next]_<<disk, mem, pc, enabled, fresh, starts, seen, hist, init>>
+Spec == Init /\ [][Next]_<<disk, mem, pc, enabled, fresh, starts, seen, hist, init, inittmp>>
 Inv == I!WellFormed /\ I!Stable
 =============================================================================
